@@ -169,6 +169,9 @@ func genScenario(t *rapid.T, focus string) Scenario {
 		sc.Modes = append(sc.Modes, rapid.SampledFrom([]string{"Forward", "PackedForward", "CompressedPackedForward"}).Draw(t, "mode"))
 	}
 	sc.Secret = rapid.IntRange(0, 2).Draw(t, "secret") == 0
+	if rapid.IntRange(0, 3).Draw(t, "rotate") == 0 {
+		sc.RotateMs = rapid.SampledFrom([]int{30, 80, 150, 300}).Draw(t, "rotateMs")
+	}
 	sc.TinyQuota = focus != "C05" && rapid.IntRange(0, 7).Draw(t, "tiny") == 0
 	sc.MemWindow = rapid.SampledFrom([]int{2, 4, 16}).Draw(t, "memWindow")
 	sc.ChunkBytes = rapid.SampledFrom([]int{300, 700, 2000}).Draw(t, "chunkBytes")
@@ -278,6 +281,7 @@ func classify(sc Scenario, o *Outcome) (bool, []string) {
 		}
 	}
 	add(sc.Secret, "shared-key-handshake")
+	add(sc.RotateMs > 0, "periodic-reconnection(short maxDuration)")
 	add(sc.Secret && silent, "upstream-accepts-but-never-answers-the-handshake")
 	add(sc.TinyQuota, "tiny-quota")
 	add(len(sc.Modes) > 1, "two-outputs")
